@@ -19,6 +19,7 @@ func init() {
 			a.c15FragmentPrefix()
 			a.c14NonFragmentResets()
 			a.c15VerifyTable("P.tag-table")
+			a.c15Writers()
 		})
 }
 
